@@ -1791,6 +1791,11 @@ func (tb *TB) call(c *ssa.Call) *Term {
 		if len(args) == 1 && args[0].Op == "List" && len(args[0].Args) > 0 {
 			return mk("Concat", "", c, args[0].Args...)
 		}
+	case "strings.TrimSuffix", "strings.TrimPrefix":
+		// trimming the empty string leaves the string
+		if len(args) == 2 && emptyStringTerm(args[1]) {
+			return args[0]
+		}
 	case "builtin len":
 		return mk("Call", "len", c, args...)
 	case "builtin cap":
@@ -1826,6 +1831,15 @@ func (tb *TB) call(c *ssa.Call) *Term {
 // normBin builds a binary term, folding chains of additions and subtractions of
 // integer constants: (x + 1) + 6 and x + 7 are the same term.
 func normBin(op string, v ssa.Value, x, y *Term) *Term {
+	// s + "" is s (an empty suffix constant of a table of encodings)
+	if op == "+" && v != nil && isStringType(v.Type()) {
+		if emptyStringTerm(y) {
+			return x
+		}
+		if emptyStringTerm(x) {
+			return y
+		}
+	}
 	if op != "+" && op != "-" {
 		return mk("Bin", op, v, x, y)
 	}
@@ -2187,4 +2201,18 @@ func (p *Program) globalArrayInit(g *ssa.Global, initFn *ssa.Function) *Term {
 		}
 	}
 	return mk("List", "", g, vals...)
+}
+
+// emptyStringTerm: the constant "" or the zero value of a string.
+func emptyStringTerm(t *Term) bool {
+	if t == nil {
+		return false
+	}
+	if t.Op == "Const" && (t.S == `""` || t.S == "") {
+		return t.V != nil && isStringType(t.V.Type())
+	}
+	if t.Op == "Zero" && t.V != nil {
+		return isStringType(t.V.Type())
+	}
+	return false
 }
